@@ -145,6 +145,8 @@ def inode_source_oracle(ctx):
                     ino = inode.Inode()
                     fp = None if manage else open(path, 'rb')
                     try:
+                        if fp is not None and (off + ln) % 3 == 1:
+                            fp.seek(777)         # a file object that was used before: the source offset is absolute, not relative to it
                         ino.new(ln, path if manage else fp, manage, off)
                         with inode.InodeOpenData(ino, 2048) as (dfp, dlen):
                             got = dfp.read(dlen)
